@@ -650,19 +650,10 @@ func (f *frame) convert(x *ssa.Convert) {
 		s := vc.fresh("str", "Int")
 		f.vals[x] = Val{t: s}
 	case isString(to):
-		if _, ok := from.Underlying().(*types.Slice); ok {
+		if sl, ok := from.Underlying().(*types.Slice); ok {
 			b := f.term(x.X)
-			s := vc.fresh("str", "Int")
-			et := from.Underlying().(*types.Slice).Elem()
-			hn := elemHeapName(et)
-			h := vc.lookup(f.st, hn, "(Array Int (Array Int Int))")
-			f.assume(eq(sx("slen", s), sLen(b)))
-			f.assume(vc.define("strconv", "Bool", vc.quantIdx(
-				func(i string) string { return fmt.Sprintf("(and (<= 0 %s) (< %s (s-len %s)))", i, i, b) },
-				func(i string) string {
-					return fmt.Sprintf("(= (sat %s %s) (select (select %s (s-arr %s)) (+ (s-off %s) %s)))", s, i, h, b, b, i)
-				},
-				func(i string) string { return fmt.Sprintf("(sat %s %s)", s, i) })))
+			h := vc.lookup(f.st, elemHeapName(sl.Elem()), "(Array Int (Array Int Int))")
+			s := vc.define("str", "Int", f.bytesToString(h, b))
 			f.vals[x] = Val{t: s}
 			return
 		}
@@ -698,6 +689,33 @@ func (f *frame) convert(x *ssa.Convert) {
 		}
 		vc.unsupported("conversion %s -> %s", from, to)
 	}
+}
+
+// bytesToString: the string holding the current contents of byte slice b (a function of heap and slice, so
+// that code and specifications denote the same string by the same term).
+func (f *frame) bytesToString(h, b string) string {
+	return f.vc.b2s(h, b)
+}
+
+func (vc *VC) b2s(h, b string) string {
+	if !vc.declared["b2s"] {
+		vc.declared["b2s"] = true
+		vc.emit("(declare-fun b2s ((Array Int (Array Int Int)) Slice) Int)")
+		vc.emit("(assert (forall ((h (Array Int (Array Int Int))) (d Slice)) (! (= (slen (b2s h d)) (s-len d)) :pattern ((b2s h d)))))")
+		vc.emit("(assert (forall ((h (Array Int (Array Int Int))) (d Slice) (i Int)) (! (=> (and (<= 0 i) (< i (s-len d))) (= (sat (b2s h d) i) (select (select h (s-arr d)) (+ (s-off d) i)))) :pattern ((sat (b2s h d) i)))))")
+	}
+	t := sx("b2s", h, b)
+	if vc.qf > 0 {
+		key := "b2s:" + t
+		if !vc.declared[key] {
+			vc.declared[key] = true
+			vc.out = append(vc.out, fmt.Sprintf("(assert (= (slen %s) (s-len %s)))", t, b))
+			for k := 0; k < vc.qf+2; k++ {
+				vc.out = append(vc.out, fmt.Sprintf("(assert (=> (< %d (s-len %s)) (= (sat %s %d) (select (select %s (s-arr %s)) (+ (s-off %s) %d)))))", k, b, t, k, h, b, b, k))
+			}
+		}
+	}
+	return t
 }
 
 func (f *frame) sliceOp(x *ssa.Slice) {
